@@ -1160,3 +1160,72 @@ func ruleC13CatalogResolvesThunks(c *Ctx) {
 	}
 	c.Check(resolves, "c13.catalog-resolves-thunks", "ToCatalog", c.P.Pos(f.Pos()), "a key column that is a lazy CTE entry is evaluated while the catalog is built", "ToCatalog stores whatever the selector reader returns as a key value: a lazy CTE entry (`… u PARALLEL LEFT JOIN dual ON u.a > c1`) stays a thunk in the key map and is called by ValueOf from every goroutine of the parallel matcher, each call writing the shared CTE registry")
 }
+
+func init() { register("C13", ruleC13GoroutineRowSnapshot); register("C10", ruleC13GoroutineRowSnapshot) }
+
+// ruleC13GoroutineRowSnapshot: a call that runs next to the query does not share the query's live row.
+func ruleC13GoroutineRowSnapshot(c *Ctx) {
+	c.Doc("c13.goroutine-row-snapshot", "the goroutines FunExpr starts for ASYNC, SPIN and SPINASYNC calls hand the function a row of their own (a copy made before the goroutine starts), never FunExpr's `current` parameter itself: the query goes on writing to its rows while the call runs — the row of `dual` is the CTE registry, which every CTE evaluation updates — and a function that ranges over its row then dies with `concurrent map iteration and map write`, which no recover can stop")
+	f := c.theFunc("function call evaluator", "*sqlparser.FuncExpr", "FunExpr")
+	if f == nil {
+		c.Unknown("c13.goroutine-row-snapshot", "FunExpr", "-", "anchor lost")
+		return
+	}
+	var row *ssa.Parameter
+	for _, p := range f.Params {
+		if shortType(p.Type()) == "Map" {
+			row = p
+		}
+	}
+	if row == nil {
+		c.Unknown("c13.goroutine-row-snapshot", "FunExpr", c.P.Pos(f.Pos()), "anchor lost: no row parameter")
+		return
+	}
+	// the parameter itself, or the cell it was spilled to because a closure captures it
+	isLiveRow := func(v ssa.Value) bool {
+		if v == ssa.Value(row) {
+			return true
+		}
+		if al, ok := v.(*ssa.Alloc); ok && al.Referrers() != nil {
+			n, only := 0, false
+			for _, r := range *al.Referrers() {
+				if st, isSt := r.(*ssa.Store); isSt && st.Addr == ssa.Value(al) {
+					n++
+					only = st.Val == ssa.Value(row)
+				}
+			}
+			return n == 1 && only
+		}
+		return false
+	}
+	n := 0
+	var why []string
+	deepInstrs(f, func(g *ssa.Function, _ *TB, _ *ssa.BasicBlock, in ssa.Instruction) {
+		gs, ok := in.(*ssa.Go)
+		if !ok || g != f {
+			return
+		}
+		n++
+		shared := false
+		if mc, isMC := gs.Call.Value.(*ssa.MakeClosure); isMC {
+			for _, b := range mc.Bindings {
+				if isLiveRow(b) {
+					shared = true
+				}
+			}
+		}
+		for _, a := range gs.Call.Args {
+			if isLiveRow(a) {
+				shared = true
+			}
+		}
+		if shared {
+			why = append(why, "the goroutine started at "+c.P.Pos(gs.Pos())+" works on FunExpr's own row")
+		}
+	})
+	if n == 0 {
+		c.PassTrivial("c13.goroutine-row-snapshot", "FunExpr", c.P.Pos(f.Pos()), "FunExpr starts no goroutine itself")
+		return
+	}
+	c.Check(len(why) == 0, "c13.goroutine-row-snapshot", "FunExpr", c.P.Pos(f.Pos()), fmt.Sprintf("%d goroutines get a row of their own", n), strings.Join(why, "; ")+": the query keeps writing to that map (the `dual` row is the CTE registry) while the function reads it")
+}
